@@ -9,6 +9,7 @@ import NbioVerif.Model.Alloc
     R h size get=.. grow=.. put=<tag>
     F h put=<tag>
     P ...                      (concurrent supporting program: not modelled, answers "ok")
+    G h cap len                the client brings a foreign buffer (make([]byte, len, cap))
     K lo hi                    fingerprint of the size-class table classOf lo..hi
 -/
 open Alloc
@@ -71,6 +72,10 @@ partial def loop (h : IO.FS.Stream) (g : Cfg) (s : St) (poisoned : Bool) : IO Un
     loop h g s poisoned
   | "F" :: hn :: rest =>
     let s ← apply g s (.free hn.toNat! (natField rest "put")) hn.toNat! true
+    loop h g s poisoned
+  | "G" :: hn :: cp :: ln :: _ =>
+    if poisoned then IO.println "rejected"; loop h g s poisoned else
+    let s ← apply g s (.foreign hn.toNat! cp.toNat! ln.toNat!) hn.toNat! false
     loop h g s poisoned
   | "K" :: lo :: hi :: _ =>
     let tab := (List.range (hi.toNat! + 1 - lo.toNat!)).map fun i => UInt8.ofNat (classOf (lo.toNat! + i))
